@@ -333,6 +333,24 @@ def instances(tier, seed):
                     bare = terms[0][1] == "single"
                     t = [(qs, "k0") for qs, c in terms] if bare else terms
                     items.append(("stats", {"shots": [list(s) for s in ms], "terms": [[qs, c] for qs, c in t], "bessel": bessel, "bare": bare, "label": f"shots={ms} op#{oi}w{w}{' bare term' if bare else ''} bessel={bessel}"}))
+    # wide registers, operators on a strict subset of the measured qubits (indices beyond 8, subsets whose natural iteration
+    # order is not ascending): symbolic coefficients
+    def wshot(w, ones):
+        return [1 if q in ones else 0 for q in range(w)]
+
+    wides = [
+        (9, [[1, 8], [1], [8, 3]], [([1], "k0"), ([8], "k1")]),
+        (9, [[1], [8], [1, 8]], [([1], "k0"), ([8], "k1"), ([1, 8], "k2")]),
+        (10, [[9], [3, 9], []], [([3], "k0"), ([9], "k1"), ([], "k2")]),
+        (12, [[2, 8], [5], [8, 11]], [([8], "k0"), ([2, 5], "k1"), ([11, 2], "k2")]),
+        (17, [[16], [7, 16], [7]], [([7], "k0"), ([16], "k1")]),
+        (9, [[0], [8]], [([8, 0], "single")]),
+    ]
+    for w, ones_list, terms in (wides if tier == "thorough" else wides[:4] + wides[5:]):
+        for bessel in (False, True):
+            bare = terms[0][1] == "single"
+            t = [(qs, "k0") for qs, c in terms] if bare else terms
+            items.append(("stats", {"shots": [wshot(w, o) for o in ones_list], "terms": [[qs, c] for qs, c in t], "bessel": bessel, "bare": bare, "label": f"wide register w={w} shots with ones at {ones_list} op={[(qs, c) for qs, c in t]} bessel={bessel}"}))
     for keys in (["0", "1"], ["00", "01", "11"], ["101", "010"], ["00", "01", "10", "11"] if tier == "thorough" else ["10", "11"]):
         items.append(("counts", {"keys": keys, "label": f"counts over {keys}"}))
     for w in (2, 3):
